@@ -318,6 +318,7 @@ impl QueryParser {
 
     pub fn parse(p: &str, data_model: &DataModel) -> Result<Self, Error> {
         let mut query = QueryParser::new();
+        super::check_nesting(p, super::MAX_QUERY_NESTING)?;
 
         let parse = match PestParser::parse(Rule::query, p) {
             Err(e) => {
